@@ -337,11 +337,36 @@ fn gen_big_index_array(rng: &mut Rng, stats: &mut Stats) -> Arr {
     Arr { iw, dense: false, default, stores, indices }
 }
 
+/// The shape `mc::bmc::get_witness` produces: a dense array read back from the solver with every index
+/// recorded, in ascending order.
+fn gen_full_array(rng: &mut Rng, stats: &mut Stats) -> Arr {
+    let iw = rng.range(1, 4) as u32;
+    let dw = *rng.pick(WIDTHS);
+    let default = gen_bits(rng, dw);
+    let mut indices = vec![];
+    let mut stores = vec![];
+    for k in 0..(1u64 << iw) {
+        let i = BitVecValue::from_u64(k, iw);
+        if rng.chance(2, 3) {
+            stores.push((i.clone(), gen_bits(rng, dw)));
+        }
+        indices.push(i);
+    }
+    stats.bump("array_index_width", &iw.to_string());
+    stats.bump("array_data_width", &dw.to_string());
+    stats.bump("array_recorded_indices", &format!("all-{}", indices.len()));
+    stats.bump("array_repr", "dense-all-indices");
+    Arr { iw, dense: true, default, stores, indices }
+}
+
 const SMALL_INDEX_WIDTHS: &[u32] = &[1, 2, 3, 4, 5, 6, 7, 8, 31, 32, 33, 63, 64];
 
 fn gen_array(rng: &mut Rng, stats: &mut Stats, allow_empty: bool, big_ok: bool) -> Arr {
-    if big_ok && rng.chance(1, 14) {
+    if big_ok && rng.chance(1, 40) {
         return gen_big_index_array(rng, stats);
+    }
+    if rng.chance(1, 10) {
+        return gen_full_array(rng, stats);
     }
     let iw = *rng.pick(SMALL_INDEX_WIDTHS);
     let dw = *rng.pick(WIDTHS);
@@ -401,7 +426,7 @@ enum Flavor {
 
 fn gen_wit(rng: &mut Rng, stats: &mut Stats, flavor: Flavor, small: bool, big_ok: bool) -> Wit {
     let wild = flavor == Flavor::Wild;
-    let n_states = if small { rng.range(0, 3) } else { rng.range(0, 6) } as usize;
+    let n_states = if small { rng.range(0, 3) } else if rng.chance(1, 25) { rng.range(10, 13) } else { rng.range(0, 6) } as usize;
     let n_inputs = if small { rng.range(0, 2) } else { rng.range(0, 5) } as usize;
     let mut n_steps = if small { rng.range(1, 3) } else { rng.range(1, 12) } as usize;
     if (wild && rng.chance(1, 6)) || (n_states > 0 && rng.chance(1, 10)) {
